@@ -7,6 +7,8 @@ import XmppModel.Lemmas.ServeLoop
 import XmppModel.Lemmas.WaitFor
 import XmppModel.Model.FormLines
 import XmppModel.Lemmas.FormLines
+import XmppModel.Model.MucHandover
+import XmppModel.Lemmas.MucHandover
 import XmppModel.Generated.C09
 /-!
 # C09 — no peer input can panic or wedge the library
@@ -534,5 +536,51 @@ open XmppModel.FormLines in
 example : multiLoop isNL 2 [97, 10, 10, 98] [] = none := by decide  -- too little fuel: still looping
 open XmppModel.FormLines in
 example : stuckLoop isNL 40 [97, 10, 10, 98] [] = none := by decide
+
+/-! ## Round E: the join hand-over loop of muc's presence handler
+
+`(*Client).handlePresence` runs on the serve goroutine with `Client.managedM` held; its
+`selectJoin:` loop (take the pending request out of `Channel.join`, put a foreign one back,
+answer ours, look again when the caller has given up) has no bound of its own.
+Model/MucHandover.lean keeps that shape (fuel-bounded, `none` = still looping; `later` = the
+requests that further Join calls put into the channel while the handler runs).  Tie: op
+`muchand` (the real handler on the one-step domain). -/
+
+open XmppModel.MucHandover in
+/-- The hand-over returns for every content of the channel and every environment, within
+`|later| + 2` turns. -/
+theorem C09_muc_handover_returns (q : Option Req) (later : List Req) :
+    ∃ r, selectJoin (later.length + 2) q later = some r :=
+  selectJoin_returns later q
+
+open XmppModel.MucHandover in
+/-- A pending request for ANOTHER occupant JID (a change of nickname is under way, the presence
+is for the nickname still held) is neither completed nor lost: the presence goes on to the user
+callback and the request is in the channel again, at the first turn. -/
+theorem C09_muc_foreign_request_put_back (n : Nat) (jc : Req) (later : List Req)
+    (h : jc.same = false) : selectJoin (n + 1) (some jc) later = some (.forward, some jc) :=
+  foreign_request_put_back n jc later h
+
+open XmppModel.MucHandover in
+/-- A live request for this occupant JID is completed at the first turn. -/
+theorem C09_muc_own_request_completed (n : Nat) (jc : Req) (later : List Req)
+    (hs : jc.same = true) (hl : jc.live = true) :
+    selectJoin (n + 1) (some jc) later = some (.handed, none) :=
+  own_request_completed n jc later hs hl
+
+open XmppModel.MucHandover in
+/-- The model can express the wedge: with `continue` instead of `break` behind the put-back the
+handler never returns while a request for another nickname is pending, whatever the fuel. -/
+theorem C09_muc_handover_continue_hangs (n : Nat) (jc : Req) (later : List Req)
+    (h : jc.same = false) : selectJoinSpin n (some jc) later = none :=
+  selectJoinSpin_hangs n jc later h
+
+open XmppModel.MucHandover in
+-- two callers gave up, the third one listens: three turns
+example : selectJoin 4 (some ⟨true, false⟩) [⟨true, false⟩, ⟨true, true⟩] = some (.handed, none) := by decide
+open XmppModel.MucHandover in
+example : selectJoin 2 (some ⟨true, false⟩) [⟨true, false⟩, ⟨true, true⟩] = none := by decide
+open XmppModel.MucHandover in
+example : selectJoin 2 (some ⟨false, true⟩) [] = some (.forward, some ⟨false, true⟩) := by decide
 
 end XmppModel.Props.C09
